@@ -1,5 +1,5 @@
 use directive::{is_directive, parse_directive, Directive, NormalDirective};
-use fnv::FnvHashMap;
+use fnv::{FnvHashMap, FnvHashSet};
 use indexmap::IndexSet;
 pub use options::{Options, Regex};
 use patch_flags::PatchFlags;
@@ -44,6 +44,8 @@ where
     define_component: Option<SyntaxContext>,
     interfaces: FnvHashMap<(Atom, SyntaxContext), TsInterfaceDecl>,
     type_aliases: FnvHashMap<(Atom, SyntaxContext), TsType>,
+    /// bindings imported from other modules: as types, nothing is known about them
+    imported: FnvHashSet<(Atom, SyntaxContext)>,
     /// type references and indexed accesses being resolved (guards circular types)
     resolving_types: RefCell<Vec<resolve_type::ResolvingType>>,
 
@@ -73,6 +75,7 @@ where
             define_component: None,
             interfaces: Default::default(),
             type_aliases: Default::default(),
+            imported: Default::default(),
             resolving_types: Default::default(),
 
             unresolved_mark,
@@ -1302,6 +1305,7 @@ where
             module.visit_with(&mut TypeDeclCollector {
                 interfaces: &mut self.interfaces,
                 type_aliases: &mut self.type_aliases,
+                imported: &mut self.imported,
             });
         }
 
@@ -1653,6 +1657,7 @@ where
 struct TypeDeclCollector<'a> {
     interfaces: &'a mut FnvHashMap<(Atom, SyntaxContext), TsInterfaceDecl>,
     type_aliases: &'a mut FnvHashMap<(Atom, SyntaxContext), TsType>,
+    imported: &'a mut FnvHashSet<(Atom, SyntaxContext)>,
 }
 
 impl Visit for TypeDeclCollector<'_> {
@@ -1670,6 +1675,13 @@ impl Visit for TypeDeclCollector<'_> {
         } else {
             self.interfaces.insert(key, ts_interface_decl.clone());
         }
+    }
+
+    fn visit_import_decl(&mut self, import_decl: &ImportDecl) {
+        self.imported.extend(import_decl.specifiers.iter().map(|specifier| {
+            let local = specifier.local();
+            (local.sym.clone(), local.ctxt)
+        }));
     }
 
     fn visit_ts_type_alias_decl(&mut self, ts_type_alias_decl: &TsTypeAliasDecl) {
